@@ -29,7 +29,7 @@ RULE = ('Hypothesis rule-based state machine (one variant per mode: record-array
         'other files untouched, object still bound to its file.  Non-trivial = history with >=1 successful append followed '
         'later by reread/write_copy and >=1 refused operation; distinct = distinct op-sequence hash.')
 ASSUMPTIONS = [
-    'appended pairs use keywords that are new (case-sensitively) and differ case-insensitively from every table name',
+    'appended pairs use keywords that are new (case-sensitively) and differ case-insensitively from every table name; not the word symbols, which append() documents as a key it skips',
     'strings/values as in C01 (texts the format cannot express are not generated); rows given as lists hold Python int/float/str',
     'the timestamp comment that append() writes is not compared (only prefix preservation of earlier bytes is)',
 ]
@@ -289,7 +289,7 @@ def make_machine(raw):
                 Y.fix_enums(tables)
                 Y.fix_last_column(tables)
                 taken = {t['name'].upper() for t in tables}
-                keys = data.draw(st.lists(Y.ident.filter(lambda k: k.upper() not in taken), max_size=2, unique=True))
+                keys = data.draw(st.lists(Y.keyword.filter(lambda k: k.upper() not in taken), max_size=2, unique=True))
                 hdr = [[k, data.draw(Y.header_value())] for k in keys]
                 if data.draw(st.integers(0, 2)) == 0:
                     # start from a text file with unsized char[] columns (each holding a non-empty value)
@@ -314,8 +314,8 @@ def make_machine(raw):
                 taken_tab = {t['name'].upper() for t in self.sim.tables}
                 have = {k for k, v in self.sim.pairs}
                 variants = [k.swapcase() for k in have] + [k.upper() for k in have] + [k.lower() for k in have]
-                cand = st.one_of(Y.ident, st.sampled_from(variants)) if variants else Y.ident
-                keys = data.draw(st.lists(cand.filter(lambda k: k.upper() not in taken_tab and k not in have and k != 'zz_newkey'),
+                cand = st.one_of(Y.keyword, st.sampled_from(variants)) if variants else Y.keyword
+                keys = data.draw(st.lists(cand.filter(lambda k: k.upper() not in taken_tab and k not in have and k not in ('zz_newkey', 'symbols')),
                                           min_size=0 if maxn > 1 else 1, max_size=maxn, unique=True))
                 return [[k, data.draw(Y.header_value())] for k in keys]
 
